@@ -53,6 +53,7 @@ def check_form(year, form_name):
                           solver_output=traceback.format_exc()[-2000:]))
             continue
         bad_sites = {}
+        extra_cond = {}
         info = []
         unsupported = []
         for p in paths:
@@ -93,11 +94,25 @@ def check_form(year, form_name):
                           vc=f'paths={len(paths)}; outcomes={sorted(set(p.outcome[0] if p.outcome[0] != "raise" else type(p.outcome[1]).__name__ for p in paths))}',
                           note='; '.join(sorted(set(info)))[:300]))
             continue
+        # a recorded finding covers a class of failing inputs; failing paths of the same line and kind that are feasible outside that
+        # class are a different violation and get their own obligation
+        for site, plist in list(bad_sites.items()):
+            cond = recorded_condition(year, lname, site)
+            if cond is None:
+                continue
+            outside = []
+            for p, text in plist:
+                model, status = replay.solve_model(p, extra=[z3.Not(cond)])
+                if model is not None:
+                    outside.append((p, text + ' [outside the recorded input class]', model))
+            if outside:
+                bad_sites[site + '/outside-recorded-input-class'] = [(p, t) for p, t, _ in outside]
+                extra_cond[site + '/outside-recorded-input-class'] = z3.Not(cond)
         for site, plist in bad_sites.items():
             # decide feasibility of one witness path with the back end and replay it
             st, wit, rep, out, vc = 'undecided', None, None, '', ''
             for p, text in plist:
-                model, status = replay.solve_model(p)
+                model, status = replay.solve_model(p, extra=[extra_cond[site]] if site in extra_cond else ())
                 out = status
                 vc = ' AND '.join(str(c)[:200] for c in p.conds[-6:])
                 if model is not None:
@@ -121,6 +136,24 @@ def check_form(year, form_name):
         if all(o.id.split('/')[2] != lname or o.status != oblig.REFUTED for o in obs):
             pass
     return obs
+
+
+_FINDINGS = None
+
+
+def recorded_condition(year, lname, site):
+    """z3 condition of the known finding recorded for this obligation id, if it names an input class."""
+    global _FINDINGS
+    if _FINDINGS is None:
+        _FINDINGS = oblig.load_findings().get('findings', [])
+    oid = f'C10/{year}/{lname}/{site}'
+    for f in _FINDINGS:
+        if f.get('property') == 'C10' and f.get('obligation') == oid and f.get('condition'):
+            c = f['condition']
+            t = linevc.read_symbol(c.get('acc', 'i'), c['symbol'], c.get('kind', 'int'), None)
+            v = c['value']
+            return {'<': t < v, '<=': t <= v, '>': t > v, '>=': t >= v, '==': t == v, '!=': t != v}[c['op']]
+    return None
 
 
 SOLVER_LABELS = ('internal-assertion', 'abort-only', 'no-internal-error', 'propagated-exception', 'subset')
